@@ -126,4 +126,135 @@ where
     }
 }
 
+// ---------------------------------------------------------------------------------------------
+// decimal-fraction kernels of from_str.rs, driven directly through the verif_kernels hook
+
+/// r = RNE(val * 2^nbits / 10^dec) by exact division in u128; the kernel returns None when r == 2^nbits
+#[inline(always)]
+pub fn rne_frac(val: u128, nbits: u32, pow10: u128) -> u128 {
+    let num = val << nbits;
+    let q = num / pow10;
+    let rem = num % pow10;
+    let up = 2 * rem > pow10 || (2 * rem == pow10 && (q & 1) == 1);
+    q + if up { 1 } else { 0 }
+}
+
+/// is r = RNE(val * 2^nbits / 10^dec)?  multiply-back form (no division): |val 2^(nbits+1) - 2 r 10^dec| <= 10^dec, tie => r even
+#[inline(always)]
+pub fn is_rne_frac(val: u128, nbits: u32, pow10: u128, r: u128) -> bool {
+    let lhs = val << (nbits + 1);
+    let rhs = 2 * r * pow10;
+    let d = if lhs >= rhs { lhs - rhs } else { rhs - lhs };
+    d < pow10 || (d == pow10 && (r & 1) == 0)
+}
+
+macro_rules! c08_dec_kernel {
+    // exact-division oracle (8/16-bit words)
+    ($name:ident, $kfn:ident, $D:ty, $DEC:expr, $BIN:expr, div) => {
+        #[kani::proof]
+        pub fn $name() {
+            let val: $D = kani::any();
+            let pow10: u128 = 10u128.pow($DEC);
+            kani::assume((val as u128) < pow10);
+            let nbits: u32 = kani::any();
+            kani::assume(nbits <= $BIN);
+            let r = rne_frac(val as u128, nbits, pow10);
+            let got = substrate_fixed::verif_kernels::$kfn(val, nbits, true);
+            kani::cover!(r == (1u128 << nbits) && nbits > 0, "W:fraction rounds up to one");
+            kani::cover!(r != 0 && r < (1u128 << nbits), "W:non-zero fraction fits");
+            match got {
+                None => assert!(r == (1u128 << nbits), "dec_to_bin(Nearest) is None only when the fraction rounds up to 1.0"),
+                Some(g) => assert!(r < (1u128 << nbits) && g as u128 == r, "dec_to_bin(Nearest) = RNE(val * 2^nbits / 10^dec)"),
+            }
+        }
+    };
+    // multiply-back oracle, one concrete nbits per query (32/64-bit words)
+    ($name:ident, $kfn:ident, $D:ty, $DEC:expr, $NBITS:expr, $VALUE:expr, mulback) => {
+        #[kani::proof]
+        pub fn $name() {
+            let val: $D = kani::any();
+            let pow10: u128 = 10u128.pow($DEC);
+            kani::assume((val as u128) < pow10);
+            let nbits: u32 = $NBITS;
+            let got = substrate_fixed::verif_kernels::$kfn(val, nbits, true);
+            kani::cover!(got.is_none() || nbits == 0, "W:fraction rounds up to one");
+            kani::cover!(got.is_some(), "W:fraction fits");
+            // rounds up to 2^nbits  <=>  val * 2^(nbits+1) >= 10^dec (2^(nbits+1) - 1)  (nbits = 0: strictly above one half)
+            let d = pow10 - val as u128;
+            let to_one = if nbits == 0 { 2 * (val as u128) > pow10 } else { d <= (pow10 >> (nbits + 1)) };
+            match got {
+                None => assert!(to_one, "dec_to_bin(Nearest) is None only when the fraction rounds up to 1.0"),
+                Some(g) => {
+                    assert!(!to_one, "dec_to_bin(Nearest) is Some only when the rounded fraction is below 1.0");
+                    if $VALUE {
+                        assert!(is_rne_frac(val as u128, nbits, pow10, g as u128), "dec_to_bin(Nearest) = RNE(val * 2^nbits / 10^dec) (multiply-back)");
+                    }
+                }
+            }
+        }
+    };
+}
+
+/// 128-bit kernel: the decision "rounds up to 1.0 -> None" for every (hi, lo) < 10^27 at one concrete nbits; the quotient
+/// itself comes from Knuth D with the divisor 2*5^54, which the SAT back end does not finish (sliced away here)
+pub fn dec128_none<const NBITS: u32>() {
+    let hi: u128 = kani::any();
+    let lo: u128 = kani::any();
+    let p27: u128 = 10u128.pow(27);
+    kani::assume(hi < p27 && lo < p27);
+    let got = substrate_fixed::verif_kernels::dec_to_bin_u128(hi, lo, NBITS, true);
+    let p54 = mul256(p27, p27);
+    let v0 = mul256(hi, p27);
+    let (vlo, c) = v0.lo.overflowing_add(lo);
+    let v = U256 { hi: v0.hi + c as u128, lo: vlo };
+    // D = 10^54 - V > 0
+    let (dlo, b) = p54.lo.overflowing_sub(v.lo);
+    let d = U256 { hi: p54.hi - v.hi - b as u128, lo: dlo };
+    let to_one = if NBITS == 0 {
+        // V > 10^54 / 2  <=>  D < 10^54 / 2
+        let half = U256 { hi: p54.hi >> 1, lo: (p54.lo >> 1) | (p54.hi << 127) };
+        d.cmp(half) == Ordering::Less
+    } else {
+        let k = NBITS + 1;
+        let t = if k >= 128 { U256 { hi: 0, lo: if k >= 256 { 0 } else { p54.hi >> (k - 128) } } }
+            else { U256 { hi: p54.hi >> k, lo: (p54.lo >> k) | (p54.hi << (128 - k)) } };
+        d.cmp(t) != Ordering::Greater
+    };
+    kani::cover!(to_one, "W:fraction rounds up to one");
+    kani::cover!(!to_one, "W:fraction fits");
+    assert!(got.is_none() == to_one, "128-bit dec_to_bin(Nearest) is None exactly when the fraction rounds up to 1.0");
+}
+
+/// dec_str_frac_to_bin (fast path for short strings, floor + digit-by-digit comparison with the tie for long ones) for EVERY
+/// digit string of LEN digits whose last digit is non-zero (the caller trims trailing zeros) and EVERY nbits <= BIN
+macro_rules! c08_frac_kernel {
+    ($name:ident, $kfn:ident, $LEN:expr, $NLO:expr, $BIN:expr, $UNW:expr) => {
+        #[kani::proof]
+        #[kani::unwind($UNW)]
+        pub fn $name() {
+            let mut buf = [b'0'; $LEN];
+            let mut val: u128 = 0;
+            let mut i = 0;
+            while i < $LEN {
+                let d: u8 = kani::any();
+                kani::assume(d < 10);
+                buf[i] = b'0' + d;
+                val = val * 10 + d as u128;
+                i += 1;
+            }
+            kani::assume(buf[$LEN - 1] != b'0');
+            let nbits: u32 = kani::any();
+            kani::assume(nbits >= $NLO && nbits <= $BIN);
+            let r = rne_frac(val, nbits, 10u128.pow($LEN));
+            let got = substrate_fixed::verif_kernels::$kfn(&buf[..], nbits);
+            kani::cover!(r == (1u128 << nbits) && nbits > 0, "W:fraction rounds up to one");
+            kani::cover!(r != 0 && r < (1u128 << nbits), "W:non-zero fraction fits");
+            match got {
+                None => assert!(r == (1u128 << nbits), "dec_str_frac_to_bin is None only when the fraction rounds up to 1.0"),
+                Some(g) => assert!(r < (1u128 << nbits) && g as u128 == r, "dec_str_frac_to_bin = RNE(0.digits * 2^nbits)"),
+            }
+        }
+    };
+}
+
 include!("gen_c08.rs");
